@@ -24,7 +24,8 @@ CLAIMS = {
              "patterns + grammar enumeration + seeded random (sizes in evidence). Automata with >120 core states (big Unicode classes) "
              "are decided over ASCII lines only. Trusted: regex-syntax's parser/translator, memchr (loop model), that regex-automata "
              "implements HIR semantics (checked differentially on every program). Outside: CLI flag mapping (hiargs.rs), \\A/\\z, "
-             "-x/-w on NUL-separated records containing \\n. The fast line path is covered compositionally (H-LOC + unit obligations), not end-to-end.",
+             "-x/-w on NUL-separated records containing \\n. The fast line path is covered by H-LOC (matcher side), the symbolic unit obligation "
+             "c01_find_by_line_fast and end-to-end harnesses in which hit patterns/flags are ENUMERATED in-harness (a symbolic hit table does not finish there).",
         technique=K_TECH + " + " + H_TECH,
         design="2 (C03), 3 (C01, C11)"),
     "C03": dict(
@@ -33,9 +34,10 @@ CLAIMS = {
              "line numbers, stop-on-nonmatch), that the event stream of the real slow-path search equals the grep model written from "
              "the property text: order, uniqueness, context windows, breaks, kinds, 1-based line numbers, offsets, byte count; plus "
              "unit lemmas for lines::{locate,preceding,count,LineStep,without_terminator} over fully symbolic 6-byte buffers.",
-        note="Bounds as C01(a). The fast line path's context/numbering logic is covered only through the shared functions "
-             "(before/after_context_by_line, sink_*, count_lines are common to both paths) and its own unit obligations where listed; "
-             "reader strategy is C02. memchr replaced by a loop model.",
+        note="Bounds as C01(a). The fast line path (match_by_line_fast, fast_invert, the switch to the slow loop under stop-on-nonmatch) is "
+             "run end to end against the same model with hit patterns x invert x (A,B) x stop enumerated in-harness (Confirmed and "
+             "all-Candidate reporting), and Core::find_by_line_fast alone with fully symbolic tables; reader strategy is C02 (one reuse "
+             "harness runs here too). memchr replaced by a loop model.",
         technique=K_TECH,
         design="2 (C03)"),
     "C11": dict(
